@@ -453,8 +453,19 @@ func (t *wal) Clear() error {
 	t.Lock()
 	defer t.Unlock()
 
-	err := multierr.Combine(
-		t.currentSegment.Close(),
+	return t.clearWithoutLock(false)
+}
+
+// clearWithoutLock removes all the entries from the wal. The mutex must be held.
+// currentSegmentClosed tells that the current segment was already closed (and deleted)
+// by the caller.
+func (t *wal) clearWithoutLock(currentSegmentClosed bool) error {
+	var err error
+	if !currentSegmentClosed {
+		err = t.currentSegment.Close()
+	}
+	err = multierr.Combine(
+		err,
 		t.readOnlySegments.Close(),
 		os.RemoveAll(t.walPath),
 	)
@@ -529,8 +540,9 @@ func (t *wal) TruncateLog(lastSafeOffset int64) (int64, error) { //nolint:revive
 			case err != nil:
 				return InvalidOffset, err
 			case segment == nil:
-				// There are no segments left
-				if err := t.Clear(); err != nil {
+				// There are no segments left (the mutex is already held, and the
+				// current segment was deleted above)
+				if err := t.clearWithoutLock(true); err != nil {
 					return InvalidOffset, err
 				}
 				return t.LastOffset(), nil
